@@ -37,6 +37,8 @@ def t_select(chk, ix):
     # the expression itself means what it says (shared with C07 / C08)
     rules_tags.check_v1_end_to_end(chk, ix)
     rules_tags.check_v2_renderings(chk, ix, chk.tier)
+    # "{config.tags} and @c": the configured expression enters the command-line expression as one parenthesised unit (shared with C07)
+    rules_tags.check_config_tags(chk, ix)
     # 'a scenario without steps' is decided by testing sequences, never iterator objects (always true)
     from .. import rules_generic
     rules_generic.check_iterator_truth(chk, ix)
